@@ -298,3 +298,68 @@ def resolve_loc(b, defs, pl, depth=10):
         # a struct moved as a whole (`_b = move _a`, e.g. into a by-value `self` parameter) keeps its identity
         base = origin_local(b, defs, base)
     return base, tuple(path)
+
+
+def ref_root(b, defs, l, depth=16):
+    """the local a reference-valued local ultimately comes from: a parameter that is itself the reference (reborrows `&mut *p`,
+    copies and moves followed), also when the reference travelled through a field of a locally built aggregate (a closure's
+    captured variable, a tuple, a small struct: `(*env).0` with env = &mut <closure [move r]>).  For `&x` of a plain local x the
+    answer is x.  None when the chain cannot be followed."""
+    def agg_field(x, f, d):
+        # the operand stored in field f of the aggregate local x was built from (moves of the whole value followed)
+        for _ in range(8):
+            dd = single_def(defs, x)
+            if dd is None or dd[1] == "term":
+                return None
+            rv = dd[2]
+            if rv.get("k") == "agg":
+                ops = rv.get("ops", [])
+                if f < len(ops) and ops[f].get("o") in ("copy", "move") and not ops[f]["pl"]["p"]:
+                    return root(ops[f]["pl"]["l"], d - 1)
+                return None
+            if rv.get("k") == "use" and rv["op"].get("o") in ("copy", "move") and not rv["op"]["pl"]["p"]:
+                x = rv["op"]["pl"]["l"]
+                continue
+            return None
+        return None
+
+    def place(pl, d, as_value):
+        proj = list(pl["p"])
+        if not proj:
+            return root(pl["l"], d - 1) if as_value else pl["l"]
+        if proj[0] == "d":
+            tgt = root(pl["l"], d - 1)
+            if tgt is None:
+                return None
+            rest = proj[1:]
+            if not rest:
+                return tgt
+            if as_value and len(rest) == 1 and isinstance(rest[0], dict) and "f" in rest[0]:
+                r = agg_field(tgt, rest[0]["f"], d)
+                if r is not None:
+                    return r
+            return tgt if not as_value else None
+        if isinstance(proj[0], dict) and "f" in proj[0]:
+            if as_value and len(proj) == 1:
+                r = agg_field(pl["l"], proj[0]["f"], d)
+                if r is not None:
+                    return r
+            return pl["l"] if not as_value else None
+        return None
+
+    def root(x, d):
+        if d <= 0:
+            return None
+        dd = single_def(defs, x)
+        if dd is None:
+            return x
+        if dd[1] == "term":
+            return None
+        rv = dd[2]
+        k = rv.get("k")
+        if k == "ref":
+            return place(rv["pl"], d, False)
+        if k in ("use", "cast") and rv["op"].get("o") in ("copy", "move"):
+            return place(rv["op"]["pl"], d, True)
+        return x
+    return root(l, depth)
